@@ -103,6 +103,7 @@ type Gen struct {
 	lemmasUsed map[string]bool
 	declared map[string]bool
 	sinces   [][2]string
+	argOfWanted map[string]bool
 	memLocals map[string]bool
 	localRefs map[string]string // ref term of a non-escaping local alloc (and its sub-objects) -> component prefix
 	ghostTypes map[string]types.Type
@@ -120,6 +121,7 @@ type loopInfo struct {
 	backPreds []*ssa.BasicBlock
 	spec    *LoopSpec
 	phis    []*ssa.Phi
+	bindErr string
 	headerState *State
 	headerEnv map[string]*Val
 	variantAtHeader string
